@@ -5,10 +5,10 @@ from .common import zlit, natlit, optlit, listlit, blit
 
 ID = 'C01'
 LEVEL = 'proof'
-COQ_TARGETS = ['C01/Props.vo', 'C01/Corr.vo']
+COQ_TARGETS = ['C01/ModMapProofs.vo', 'C01/Props.vo', 'C01/Corr.vo']
 PROPS = 'C01/Props.v'
 EXTRACTED = []
-CASE_IMPORTS = 'From V Require Import C05.Model C01.Model C01.Corr.'
+CASE_IMPORTS = 'From V Require Import C05.Model C01.Model C01.ModMap C01.Corr.'
 RULE = ('input molecules = sequences of 1-6 residues drawn from 3 residue kinds (2-4 atoms each, optional hydrogens, an '
         'unmapped residue kind), linear / branched / cross-linked / ring connectivity, residue numbers with gaps and repeats, '
         'node keys consecutive, sparse or shuffled; mapping sets with one-to-one, many-to-one, shared atoms (two particles), '
@@ -150,6 +150,81 @@ def gen_case(rng):
     return mol, maps
 
 
+def gen_mod_case(rng):
+    """a molecule some of whose residues carry a modification (an extra, flagged atom bonded to one atom of the residue; every
+    atom of the residue labelled), with modification mappings that add a particle, rename the anchor particle, or both"""
+    mol, maps = gen_case(rng)
+    maps = [m for m in maps if len({n['resid'] for n in m['from']}) == 1]
+    by_kind = {}
+    for m in maps:
+        by_kind.setdefault(m['from'][0]['resname'], m)
+    atoms, bonds = mol['atoms'], mol['bonds']
+    used = {a['key'] for a in atoms}
+    free = iter(k for k in range(300, 400) if k not in used)
+    labels, ptm = {}, []
+    mods = {}          # mod id -> description
+    residues = {}
+    for a in atoms:
+        residues.setdefault((a['resid'], a['resname'], a['chain']), []).append(a)
+    modmaps = []
+    next_id = iter(range(1, 50))
+    for (resid, kind, chain), ats in residues.items():
+        if kind not in by_kind or rng.random() < 0.5:
+            continue
+        bm = by_kind[kind]
+        mapped_names = {bm['from'][i]['name'] for i, _ in bm['map']}
+        cand = [a for a in ats if a['name'] in mapped_names and not a['H']]
+        if not cand:
+            continue
+        anchor = rng.choice(cand)
+        # the particle the anchor atom contributes to (first target of its mapping entry)
+        fidx = [n['key'] for n in bm['from'] if n['name'] == anchor['name']][0]
+        tgt_key = dict((k, v) for k, v in bm['map'])[fidx][0][0]
+        tgt = [b for b in bm['to']['nodes'] if b['key'] == tgt_key][0]
+        if tgt['name'] is None:
+            continue
+        mid = next(next_id)
+        xk = next(free)
+        atoms.append({'key': xk, 'resid': resid, 'name': 9, 'resname': kind, 'H': False, 'chain': chain})
+        bonds.append([anchor['key'], xk])
+        ptm.append(xk)
+        for a in ats + [atoms[-1]]:
+            labels.setdefault(a['key'], []).append(mid)
+        style = rng.choice(['new', 'rename', 'both', 'onto', 'nomap', 'badname'])
+        if style == 'nomap':
+            continue
+        to_nodes = [{'key': 0, 'name': tgt['name'] if style != 'badname' else 98, 'new': False,
+                     'rename': (70 + mid) if style in ('rename', 'both') else None}]
+        mapping = [[0, [[0, 4]]]]
+        if style in ('new', 'both'):
+            to_nodes.append({'key': 1, 'name': 80 + mid, 'new': True, 'rename': None})
+            mapping.append([1, [[1, 4]]])
+        else:
+            mapping.append([1, [[0, rng.choice([4, 0, 2])]]])
+        modmaps.append({'names': [mid],
+                        'from': [{'key': 0, 'name': anchor['name'], 'resname': rng.choice([None, kind]), 'ptm': False, 'mods': [mid]},
+                                 {'key': 1, 'name': 9, 'resname': None, 'ptm': True, 'mods': [mid]}],
+                        'fedges': [[0, 1]], 'to': to_nodes, 'tedges': [[0, 1]] if len(to_nodes) > 1 else [],
+                        'tinters': [[1, [0, 1], 90 + mid]] if len(to_nodes) > 1 and rng.random() < 0.7 else [], 'map': mapping})
+    rng.shuffle(modmaps)
+    if rng.random() < 0.8:
+        # realistic numbering: the extra atom sits among the atoms of its residue (so that the modification is applied between
+        # the blocks of consecutive residues)
+        order = []
+        for (resid, kind, chain), ats in residues.items():
+            order += [a['key'] for a in ats]
+            order += [a['key'] for a in atoms if a['key'] in ptm and (a['resid'], a['resname'], a['chain']) == (resid, kind, chain)]
+        step = rng.choice([1, 1, 3])
+        new = {old: 5 + step * i for i, old in enumerate(order)}
+        for a in atoms:
+            a['key'] = new[a['key']]
+        mol['atoms'] = sorted(atoms, key=lambda a: a['key'])
+        mol['bonds'] = [[new[u], new[v]] for u, v in bonds]
+        ptm = [new[k] for k in ptm]
+        labels = {new[k]: v for k, v in labels.items()}
+    return {'kind': 'mods', 'mol': mol, 'maps': maps, 'modmaps': modmaps, 'ptm': ptm, 'labels': [[k, v] for k, v in sorted(labels.items())]}
+
+
 def generate(rng, tier):
     cases = []
     n = 350 if tier == 'quick' else 5000
@@ -158,6 +233,8 @@ def generate(rng, tier):
         cases.append({'kind': 'do', 'mol': mol, 'maps': maps})
         if rng.random() < 0.5:
             cases.append({'kind': 'map', 'mol': mol, 'map': rng.choice(maps)})
+    for _ in range(250 if tier == 'quick' else 4000):
+        cases.append(gen_mod_case(rng))
     return cases
 
 
@@ -205,12 +282,102 @@ def _build(inp_mol, maps):
     return mol, ff_to, {'ffa': {'ffb': mappings}}
 
 
+def run_mods(inp):
+    import vermouth.molecule as vm
+    from vermouth.map_parser import Mapping
+    from vermouth.processors import do_mapping as dm
+    mol, ff_to, mappings = _build(inp['mol'], inp['maps'])
+    ff_from = mol.force_field
+    labels = {int(k): v for k, v in inp['labels']}
+    mod_objs = {}
+    for mid in sorted({m for v in labels.values() for m in v}):
+        link = vm.Link(force_field=ff_from)
+        link.name = 'M%d' % mid
+        mod_objs[mid] = link
+    for k, v in labels.items():
+        mol.nodes[k]['modifications'] = [mod_objs[m] for m in v]
+    for k in inp['ptm']:
+        mol.nodes[k]['PTM_atom'] = True
+    for mi, mm in enumerate(inp['modmaps']):
+        bf = vm.Link(force_field=ff_from)
+        for n in mm['from']:
+            bf.add_node(n['key'], atomname='A%d' % n['name'], resname='' if n['resname'] is None else 'R%d' % n['resname'],
+                        PTM_atom=n['ptm'], modifications=[mod_objs[m] for m in n['mods']])
+        for u, v in mm['fedges']:
+            bf.add_edge(u, v)
+        bt = vm.Link(force_field=ff_to)
+        bt.name = 'M%d' % mm['names'][0]
+        for n in mm['to']:
+            attrs = {'atomname': 'P%d' % n['name'], 'PTM_atom': n['new']}
+            if n['rename'] is not None:
+                attrs['replace'] = {'atomname': 'P%d' % n['rename']}
+            bt.add_node(n['key'], **attrs)
+        for u, v in mm['tedges']:
+            bt.add_edge(u, v)
+        for t, atoms, par in mm['tinters']:
+            bt.add_interaction({1: 'bonds', 2: 'angles'}[t], tuple(atoms), ['p%d' % par])
+        mapping = {int(k): {b: w / 4 for b, w in v} for k, v in mm['map']}
+        mappings['ffa']['ffb']['mod%d' % mi] = Mapping(bf, bt, mapping, {}, ff_from=ff_from, ff_to=ff_to, type='modification',
+                                                      names=tuple('M%d' % x for x in mm['names']))
+    found = []
+    for mi, (name, mp) in enumerate(mappings['ffa']['ffb'].items()):
+        if mp.type == 'block':
+            for m in mp.map(mol, node_match=dm._old_atomname_match, edge_match=dm.edge_matcher):
+                found.append([int(name[1:]), _m2b(m[0])])
+    mfound = []
+    orig = dm.modification_matches
+
+    def wrapper(molecule, maps):
+        out = orig(molecule, maps)
+        for m2m, modification, _ in out:
+            idx = [i for i, mm in enumerate(inp['modmaps']) if tuple('M%d' % x for x in mm['names']) == tuple(modification.name)][0]
+            mfound.append([idx, _m2b(m2m)])
+        return out
+    handler = _Catch()
+    lg = logging.getLogger('vermouth')
+    old = lg.level
+    lg.setLevel(logging.DEBUG)
+    lg.addHandler(handler)
+    dm.modification_matches = wrapper
+    result = None
+    try:
+        try:
+            out = dm.do_mapping(mol, mappings, ff_to, attribute_keep=('chain',), attribute_stash=('resid',))
+        except ValueError as e:
+            if 'No node found in molecule with atomname' not in str(e):
+                raise
+            out = None
+    finally:
+        dm.modification_matches = orig
+        lg.removeHandler(handler)
+        lg.setLevel(old)
+    msgs = [(r.levelno, str(r.msg)) for r in handler.records]
+    res = {'found': found, 'mfound': mfound, 'no_cover': sum(1 for _, m in msgs if "Can't find modification mappings" in m), 'result': None}
+    if out is not None:
+        beads = []
+        for k in out.nodes:
+            nd = out.nodes[k]
+            beads.append({'key': k, 'name': int(nd['atomname'][1:]), 'resid': nd.get('resid', 0), 'cg': nd.get('charge_group', 0),
+                          'w': [[u, int(round(w * 4))] for u, w in nd['mapping_weights'].items()],
+                          'chain': None if nd.get('chain') is None else int(nd['chain'][1:]), 'old': nd.get('_old_resid')})
+        inters = []
+        for t, lst in out.interactions.items():
+            for i in lst:
+                inters.append([{'bonds': 1, 'angles': 2}[t], list(i.atoms), int(i.parameters[0][1:])])
+        res['result'] = {'beads': beads, 'edges': [list(e) for e in out.edges], 'inters': inters,
+                         'overlap': any('covered by multiple blocks' in m for _, m in msgs),
+                         'unmapped': any(l >= logging.WARNING and 'not covered by a mapping' in m for l, m in msgs)}
+    return res
+
+
 def _m2b(match):
     return [[k, [[b, int(round(w * 4))] for b, w in v.items()]] for k, v in match.items()]
 
 
 def run_impl(inp):
     from vermouth.processors import do_mapping as dm
+    if inp['kind'] == 'mods':
+        return run_mods(inp)
     if inp['kind'] == 'map':
         mol, ff_to, mappings = _build(inp['mol'], [inp['map']])
         mp = mappings['ffa']['ffb']['m0']
@@ -278,7 +445,43 @@ def map_lit(mp):
         pairs_lit(mp['fedges']), block_lit(mp['to']), m2b_lit(mp['map']))
 
 
+def modmap_lit(mm):
+    return ('{| mm_names := %s; mm_from := %s; mm_fedges := %s; mm_to := %s; mm_tedges := %s; mm_tinters := %s; mm_map := %s |}' % (
+        listlit(mm['names'], zlit),
+        listlit(mm['from'], lambda n: '{| mf_key := %s; mf_name := %s; mf_resname := %s; mf_ptm := %s; mf_mods := %s |}' % (
+            zlit(n['key']), zlit(n['name']), optlit(n['resname'], zlit), blit(n['ptm']), listlit(n['mods'], zlit))),
+        pairs_lit(mm['fedges']),
+        listlit(mm['to'], lambda n: '{| mt_key := %s; mt_name := %s; mt_new := %s; mt_rename := %s |}' % (
+            zlit(n['key']), zlit(n['name']), blit(n['new']), optlit(n['rename'], zlit))),
+        pairs_lit(mm['tedges']),
+        listlit(mm['tinters'], lambda i: '(%s, (%s, %s))' % (zlit(i[0]), listlit(i[1], zlit), zlit(i[2]))),
+        m2b_lit(mm['map'])))
+
+
+def beads_lit(beads):
+    return listlit(beads, lambda b: '{| i_key := %s; i_name := %s; i_resid := %s; i_cg := %s; i_w := %s; i_chain := %s; i_old := %s |}' % (
+        zlit(b['key']), zlit(b['name']), zlit(b['resid']), zlit(b['cg']), pairs_lit(b['w']), optlit(b['chain'], zlit), optlit(b['old'], zlit)))
+
+
+def emit_mods(inp, out):
+    L = '{| l_mol := %s; l_ptm := %s; l_mods := %s |}' % (mol_lit(inp['mol']), listlit(inp['ptm'], zlit),
+                                                         listlit(inp['labels'], lambda kv: '(%s, %s)' % (zlit(kv[0]), listlit(kv[1], zlit))))
+    found = listlit(out['found'], lambda f: '{| p_m2b := %s; p_block := %s |}' % (m2b_lit(f[1]), block_lit(inp['maps'][f[0]]['to'])))
+    mfound = listlit(out['mfound'], lambda f: '(%s, %s)' % (zlit(f[0]), m2b_lit(f[1])))
+    r = out['result']
+    if r is None:
+        res = 'None'
+    else:
+        res = '(Some (%s, %s, %s, %s, %s))' % (beads_lit(r['beads']), pairs_lit(r['edges']),
+                                               listlit(r['inters'], lambda i: '(%s, (%s, %s))' % (zlit(i[0]), listlit(i[1], zlit), zlit(i[2]))),
+                                               blit(r['overlap']), blit(r['unmapped']))
+    return 'CDoMods %s %s %s %s %s %s %s' % (listlit(inp['maps'], map_lit), listlit(inp['modmaps'], modmap_lit), L, found, mfound,
+                                           natlit(out['no_cover']), res)
+
+
 def emit(inp, out):
+    if inp['kind'] == 'mods':
+        return emit_mods(inp, out)
     if inp['kind'] == 'map':
         return 'CMap %s %s %s' % (map_lit(inp['map']), mol_lit(inp['mol']), listlit(out['matches'], m2b_lit))
     found = listlit(out['found'], lambda f: '{| p_m2b := %s; p_block := %s |}' % (m2b_lit(f[1]), block_lit(inp['maps'][f[0]]['to'])))
@@ -290,12 +493,16 @@ def emit(inp, out):
 
 
 def py_prop(inp, out):
+    if inp['kind'] == 'mods':
+        return None
     if inp['kind'] == 'do' and not out['graph_is_weights']:
         return "a particle's 'graph' is not the key set of its 'mapping_weights'"
     return None
 
 
 def nontrivial(inp, out):
+    if inp['kind'] == 'mods':
+        return str(inp) if out['mfound'] else None
     if inp['kind'] == 'map':
         return str(inp) if out['matches'] else None
     if len(out['found']) >= 2 and len(out['edges']) >= 1:
@@ -304,6 +511,9 @@ def nontrivial(inp, out):
 
 
 def describe(inp, out):
+    if inp['kind'] == 'mods':
+        return {'kind': 'mods', 'n_mod_placements': min(len(out['mfound']), 4), 'mods_error': out['result'] is None,
+                'mods_no_cover': min(out['no_cover'], 2), 'n_modmaps': len(inp['modmaps'])}
     if inp['kind'] == 'map':
         return {'kind': 'map', 'n_matches': min(len(out['matches']), 4)}
     keys = [a['key'] for a in inp['mol']['atoms']]
@@ -315,6 +525,9 @@ def describe(inp, out):
 
 
 def shrink(inp):
+    if inp['kind'] == 'mods':
+        for i in range(len(inp['modmaps'])):
+            yield dict(inp, modmaps=inp['modmaps'][:i] + inp['modmaps'][i + 1:])
     if inp['kind'] == 'do':
         for i in range(len(inp['maps'])):
             if len(inp['maps']) > 1:
